@@ -12,6 +12,7 @@ HDIR = os.path.join(os.path.dirname(os.path.dirname(os.path.abspath(__file__))),
 
 # property -> [(harness file, {tier: per-condition timeout}, conditions only in thorough)]
 PLAN = {
+    "C20": [("h_c20.py", {"quick": 240, "thorough": 900}, set())],
     "C07": [("h_c07.py", {"quick": 240, "thorough": 900}, set())],
     "C09": [("h_c09.py", {"quick": 240, "thorough": 900}, set())],
     "C08": [("h_c08.py", {"quick": 240, "thorough": 900}, set())],
@@ -21,12 +22,12 @@ PLAN = {
 }
 
 
-def main(pid, tier):
-    chk = Check(pid, tier)
+def main(pid, tier, chk=None, plan_key=None):
+    chk = chk or Check(pid, tier)
     proj.ensure_venv()
     t0 = time.time()
     samples = []
-    for fname, tmo, thorough_only in PLAN[pid]:
+    for fname, tmo, thorough_only in PLAN[plan_key or pid]:
         path = os.path.join(HDIR, fname)
         conds = [n for n, _ in runner.conditions(path)]
         only = set(conds) if tier == "thorough" else set(conds) - thorough_only
@@ -58,8 +59,8 @@ def main(pid, tier):
                     chk.harness_error(f"non-reproducing counterexample {name}: {r['call']}")
             else:
                 chk.unknown(name, r["detail"][:300])
-    chk.solver_s = time.time() - t0
-    chk.programs = len(PLAN[pid])
+    chk.solver_s += time.time() - t0
+    chk.programs += len(PLAN[plan_key or pid])
     chk.extra["repo_fingerprint"] = proj.repo_fingerprint()
     chk.extra["engine"] = "crosshair-tool 0.0.110 (z3), one process per condition, --report_all"
     return chk
